@@ -49,7 +49,7 @@ CallVerdict(c, e) ==
     ELSE IF ~H!SameType(e.h0, e.h1, e.old, e.new, e.path) THEN "same type: a copied node changed kind or type tag"
     ELSE IF ~H!OrigUnchanged(e.h0, e.h1, e.old) THEN "original: the receiver's object graph was modified"
     ELSE IF ~H!OnlyPathChanged(e.h0, e.h1, e.old, e.new, e.path, e.v) THEN "only path: result is not receiver[path := value]"
-    ELSE IF e.new \in H!Reach(e.h0, e.old) THEN "original: result is (part of) the receiver itself"
+    ELSE IF e.new \in H!Reach(e.h0, e.old) THEN "fresh: result is (part of) the receiver itself"
     ELSE IF ~(\A r \in held : H!OrigUnchanged(e.h0, e.h1, r)) THEN "held: an earlier result was modified"
     ELSE IF ~H!OrigUnchanged(e.h0, e.h1, e.v) THEN "value: the value handed in was modified"
     ELSE ""
@@ -59,9 +59,9 @@ TInit == /\ ci = 1 /\ l = 1 /\ bad = ""
          /\ TLCSet(1, << >>)
 
 Call ==
-    LET e == C.events[l]
-        v == CallVerdict(C, e)
-    IN  /\ bad' = IF v = "" THEN bad ELSE Note(v)
+    LET e == C.events[l] IN
+    \E v \in { CallVerdict(C, e) } :      \* bound once (TLC would re-evaluate a LET definition at every use)
+        /\ bad' = IF v = "" THEN bad ELSE Note(v)
         /\ held' = IF e.raised \/ v # "" THEN held ELSE held \cup { e.new }
         /\ l' = l + 1 /\ ci' = ci
 
